@@ -797,10 +797,15 @@ class Interp:
             self.bad(e, 'attribute access outside the subset')
         if isinstance(e, ast.Call):
             return self.call(e, env)
-        if isinstance(e, ast.GeneratorExp) or isinstance(e, ast.ListComp):
+        if isinstance(e, ast.GeneratorExp):
+            # lazy, like the host: the outermost iterable is evaluated now, everything else on demand
+            first = self.eval(e.generators[0].iter, env)
+            genv = dict(env)
+            return ALazy(lambda: self.comp_lazy(e, 0, genv, first))
+        if isinstance(e, ast.ListComp):
             out = []
             self.comp(e, 0, dict(env), out)
-            return out if isinstance(e, ast.GeneratorExp) else AList(out)
+            return AList(out)
         if isinstance(e, ast.Lambda):
             return ('closure', e, dict(env))
         if isinstance(e, ast.Yield):
@@ -835,6 +840,17 @@ class Interp:
                 if is_subclass(cls, cand) or is_subclass(cls.rsplit('.', 1)[-1], cand):
                     return True
         return False
+
+    def comp_lazy(self, e, ix, env, first=None):
+        if ix == len(e.generators):
+            yield self.eval(e.elt, env)
+            return
+        g = e.generators[ix]
+        src = first if (ix == 0 and first is not None) else self.eval(g.iter, env)
+        for item in self.py_iter(src, g.iter):
+            self.assign(g.target, item, env)
+            if all(self.truth(self.eval(c, env), c) for c in g.ifs):
+                yield from self.comp_lazy(e, ix + 1, env)
 
     def comp(self, e, ix, env, out):
         if ix == len(e.generators):
@@ -1421,7 +1437,7 @@ class Interp:
                 if isinstance(args[0], ADict):
                     base.d.update(args[0].d)
                     return None
-                if isinstance(args[0], (list, tuple, AList)):
+                if isinstance(args[0], (list, tuple, AList, ALazy, AGen, AIter)):
                     for pair in self.iterate(args[0], e):
                         k, v = self.iterate(pair, e)
                         base.d[k] = v
